@@ -799,14 +799,14 @@ func init() {
 			if ctx.Tier == "thorough" {
 				return 120000 + 4000000 + 400000 + c10ExhaustBlocks(ctx.Tier) + 256
 			}
-			return 4000 + 150000 + 20000 + c10ExhaustBlocks(ctx.Tier) + 256
+			return 8000 + 300000 + 20000 + c10ExhaustBlocks(ctx.Tier) + 256
 		},
 		Prefix: func(ctx *Ctx, i int) []uint64 {
-			nEnum := 4000
+			nEnum := 8000
 			if ctx.Tier == "thorough" {
 				nEnum = 120000
 			}
-			nRandom := 150000
+			nRandom := 300000
 			if ctx.Tier == "thorough" {
 				nRandom = 4000000
 			}
